@@ -4,10 +4,10 @@
    quantify over every trace accepted by the CL monitor Client.step: every broker behaviour, every
    interleaving of API callers, processor, pinger and die body, every failure of a Conn or Session
    call, any number of Client incarnations on one session. *)
-From Coq Require Import List NArith.
+From Coq Require Import List NArith ZArith.
 From GM Require Import Base.Lts Codec.Packet Session.Store Client.Future Client.Client Client.ClientSpec
   Client.ClientWitness Client.ClientInvSbs Client.ClientInvRx Client.ClientKept Client.ClientTruth Client.ClientTotal
-  Client.TraceScan Client.ClientScanProofs.
+  Client.TraceScan Client.ClientScanProofs Client.ClientHist Client.Tracker.
 Import ListNotations.
 Open Scope N_scope.
 
@@ -29,9 +29,15 @@ Theorem C09_resend_on_connect : C09_resend_on_connect_statement.
 Proof. exact resend_on_connect. Qed.
 Print Assumptions C09_resend_on_connect.
 
-(* history form of truthfulness (marks in the received/sent logs): evaluated on every observed trace by
-   the extracted checker Client.truthful_ok; the proved theorem is the step form below *)
-Definition C09_future_truthful_statement : Prop := ClientSpec.C09_future_truthful_statement.
+(* history form: for every accepted trace and every future that is Completed at its end, the log of
+   received packets contains, after the point at which the future was stored (the packet being processed
+   at that very moment included), an acknowledgement carrying the future's packet id — a CONNACK with
+   code 0 for a connect future —; a QoS 0 publish future: the log of Send calls contains, after that
+   point, a successful Send of a QoS 0 PUBLISH (or, which the decoder excludes, an acknowledgement
+   carrying id 0) *)
+Theorem C09_future_truthful : C09_future_truthful_history_statement.
+Proof. exact future_truthful_history. Qed.
+Print Assumptions C09_future_truthful.
 
 (* a future turns Completed only while the processor handles an acknowledgement (the last packet
    received) carrying the id it is stored under / a CONNACK accepted in state connecting / in the QoS 0
@@ -62,6 +68,24 @@ Theorem C09_scan_pubrec_sound : forall es s, run step init es = Some s ->
   scan_pubrec XInit es = Some (pexp_of (k_ppc (k s))).
 Proof. exact scan_pubrec_accepted. Qed.
 Print Assumptions C09_scan_pubrec_sound.
+
+(* client.Tracker (keep-alive arithmetic) and the pinger's rule, over an explicit clock (Client/Tracker.v) *)
+Local Open Scope Z_scope.
+Theorem C09_tracker_window : forall (t : tracker) (r now1 now2 : BinNums.Z), now1 <= now2 ->
+  tk_window (tk_reset t r) now2 <= tk_window (tk_reset t r) now1 /\
+  (tk_window (tk_reset t r) now1 < 0 <-> tk_timeout t < now1 - r).
+Proof. intros t r n1 n2 H. split; [exact (window_decreases t r n1 n2 H)|exact (window_negative_iff t r n1)]. Qed.
+Print Assumptions C09_tracker_window.
+
+Theorem C09_tracker_pending : forall (t : tracker) (n : BinNums.Z), outstanding t n -> (tk_pending t = true <-> 0 < n).
+Proof. exact pending_iff. Qed.
+Print Assumptions C09_tracker_pending.
+Local Close Scope Z_scope.
+
+Theorem C09_pinger_never_second_ping : forall ops t0,
+  Forall (fun b => b = false) (r_sent (tk_exec (TkRun t0 false []) ops)).
+Proof. exact never_second_ping. Qed.
+Print Assumptions C09_pinger_never_second_ping.
 
 (* non-vacuity: Connect, CONNACK, Publish(QoS 1), PUBACK, future completed, Disconnect — accepted, all
    boolean checkers true, quiescent *)
